@@ -28,6 +28,15 @@ Theorem C12_aggregated_view :
 Proof. exact aggregated_view. Qed.
 Print Assumptions C12_aggregated_view.
 
+Theorem C12_share_view :
+  forall (P : Type) (ch : bool -> nat -> nat -> P) (reqs : list nat) (cap pcap j n : nat),
+    let s := fold_left (increase P ch) reqs (new P ch cap pcap) in
+    j < pcap -> n <= g_cap P s ->
+    share_view P (g_G P s) j n = Some (chain_take P ch true j 0 n) /\
+    share_view P (g_H P s) j n = Some (chain_take P ch false j 0 n).
+Proof. exact share_is_stream_prefix. Qed.
+Print Assumptions C12_share_view.
+
 (* on any array: the iterator yields the flat-map view, never indexes out of range (collect is Some) *)
 Theorem C12_iterator_is_flat_map :
   forall (P : Type) (ch : bool -> nat -> nat -> P) (arr : list (list P)) (n m : nat),
